@@ -10,6 +10,7 @@
    or not, EOF, socket errors, timer expiries, teardown and reload requests, of any length. *)
 From Coq Require Import ZArith Bool List.
 From ExaV Require Import gen.Gen_Fsm spec.Spec_Fsm model.Model_Session proofs.Proofs_Session.
+From ExaV Require model.Model_WriteQueue proofs.Proofs_WriteQueue.
 Import ListNotations.
 Open Scope Z_scope.
 
@@ -93,6 +94,31 @@ Example C05_example_collision :
      (Recv Keepalive, [Fsm OpenConfirm Established; ApiUp])].
 Proof. vm_compute. reflexivity. Qed.
 
+(* ---- the API pipe (Processes.write in async mode, Processes.flush_write_queue; Model_WriteQueue, tied by
+   harness/wqueue.py).  For EVERY history of write() calls and flushes, whatever the pipe accepts at each os.write
+   (everything, a part, nothing, EAGAIN; at most BATCH items per flush) and as long as the pipe reports no error:
+   what the helper has read, followed by what is still queued, is exactly the records written, in the order written -
+   no record overtaken, repeated, dropped or cut anywhere but at the end of what was read so far.  (C05: an "up" written after a "down" is read after it.) *)
+Theorem C05_api_pipe_in_order : forall ops,
+  forallb Model_WriteQueue.error_free ops = true ->
+  Model_WriteQueue.wq_dead (Model_WriteQueue.run ops) = false
+  /\ Model_WriteQueue.wq_out (Model_WriteQueue.run ops) ++ concat (Model_WriteQueue.wq_q (Model_WriteQueue.run ops))
+     = Model_WriteQueue.enqueued ops.
+Proof. exact Proofs_WriteQueue.queue_in_order. Qed.
+
+(* a pipe that takes everything empties a queue of at most BATCH records in one flush *)
+Theorem C05_api_pipe_drains : forall big q out budget,
+  Forall (fun d => (length d <= big)%nat) q -> (length q <= budget)%nat ->
+  fst (fst (Model_WriteQueue.drain q out budget (Proofs_WriteQueue.generous big (length q)))) = ([], out ++ concat q, false).
+Proof. exact Proofs_WriteQueue.drain_generous. Qed.
+
+(* not vacuous: putting a refused record back at the END of the queue (a seeded change) delivers [2; 1] for [1]; [2] *)
+Theorem C05_api_pipe_back_refuted :
+  let '((q1, out1, _), _, _) := Model_WriteQueue.drain_back [[1%Z]; [2%Z]] [] 10 [Model_WriteQueue.Again] in
+  let '((q2, out2, _), _, _) := Model_WriteQueue.drain_back q1 out1 10 [Model_WriteQueue.W 5; Model_WriteQueue.W 5] in
+  out2 = [2%Z; 1%Z] /\ q2 = [].
+Proof. exact Proofs_WriteQueue.back_reorders. Qed.
+
 Print Assumptions C05_rfc_transitions.
 Print Assumptions C05_transitions_chain.
 Print Assumptions C05_table_within_rfc.
@@ -101,3 +127,6 @@ Print Assumptions C05_no_update_outside_established.
 Print Assumptions C05_close_on_leave.
 Print Assumptions C05_up_down_alternate.
 Print Assumptions C05_reads_own_transport.
+Print Assumptions C05_api_pipe_in_order.
+Print Assumptions C05_api_pipe_drains.
+Print Assumptions C05_api_pipe_back_refuted.
